@@ -85,7 +85,7 @@ def _INDEXES(e, st, cts, words):
     tag = getattr(e, "_indexes_inv", None)
     return SV(BOOL, And(m >= 0,
                         ForAllP([j], Implies(And(j >= 0, j < m), And(0 <= idx(j), idx(j) < words.v.len, z3.Select(W, idx(j)) == ob(j),
-                                                                     class_of(ob(j)) != 0, Not(z3.Select(cts.v.arrs[0], j)), Not(z3.Select(cts.v.arrs[4], j)))), patterns=[idx(j)]),
+                                                                     class_of(ob(j)) != 0, Not(z3.Select(cts.v.arrs[0], j)), Not(z3.Select(cts.v.arrs[2], j)), Not(z3.Select(cts.v.arrs[4], j)))), patterns=[idx(j)]),
                         ForAllP([j, j2], Implies(And(j >= 0, j < j2, j2 < m), idx(j) < idx(j2)), patterns=[z3.MultiPattern(idx(j), idx(j2))])))
 
 
